@@ -49,7 +49,7 @@ def main(run):
     from ixai.explainer import IncrementalSage, IncrementalPFI
     run.rule = ("offline contract checker over the event log of generated call histories for the product explainer class "
                 "{IncrementalPFI, IncrementalSage, BatchSage, IntervalSage} x {required arguments only, overrides} x feature-name "
-                "types {str,int,float,mixed} x d in 1..5 x n_inner (constructor and per-call override) x update_storage flags; the "
+                "types {str,int,float,mixed,spelled (str names spelling numeric names),odd} x d in 1..5 x n_inner (constructor and per-call override) x update_storage flags; the "
                 "loss is a plain two-positional-parameter function; checks: construction, result keys == given names, seen_samples "
                 "+1, model evaluations 0 / 1+d*n_inner, x / y / feature-name list unchanged (deep snapshots), storage updated "
                 "exactly once with (x,y) after the last model/loss event or not at all, imputed sets have full size (an observation "
@@ -62,7 +62,7 @@ def main(run):
     rnd = random.Random(run.shard_seed)
     classes = ["IncrementalPFI", "IncrementalSage", "BatchSage", "IntervalSage"]
     for rep in range(REPS[run.tier]):
-        for cls_name, nk, d, use_over in itertools.product(classes, ["str", "int", "float", "mixed"], [1, 2, 3, 5], [False, True]):
+        for cls_name, nk, d, use_over in itertools.product(classes, ["str", "int", "float", "mixed", "spelled", "odd"], [1, 2, 3, 5], [False, True]):
             names = make_names(nk, d)
             container = rnd.choice(["list", "list", "tuple"])        # feature names are a Sequence: tuples are as good as lists
             if container == "tuple":
